@@ -9,6 +9,8 @@
 -/
 import Gojq.Proofs.MiniVMYields
 namespace Gojq.MiniVM
+variable [IterMsg]
+set_option linter.unusedSectionVars false
 
 /-! ## the current frame -/
 
@@ -55,7 +57,7 @@ theorem collect {code} {Oq P : Nat → Prop} {oq fr G pe S sid i f d c outs e}
     (happ : code[pe]? = some (.append sid i)) (hbt : code[pe+1]? = some .backtrack)
     (y : Yields code Oq P oq fr G pe S c outs e) :
     ∀ acc, c.regs (f.base + i) = .v (.arr acc) →
-    ∃ R', Steps code c (.fail G e R') ∧ R' (f.base + i) = .v (.arr (acc ++ outs)) ∧
+    ∃ R', Steps code c (.fail G (e.map .plain) R') ∧ R' (f.base + i) = .v (.arr (acc ++ outs)) ∧
       EqOff (fun j => Wr Oq oq j ∨ j = f.base + i) c.regs R' := by
   induction y with
   | @done c e R' hs hf =>
@@ -129,6 +131,59 @@ theorem call_of_body {code} {Ob P P' : Nat → Prop} {o n pr fr F S c outs e} {f
           · exact Or.inl (Or.inr h)
           · exact Or.inr ⟨h.1, by omega⟩
         · exact Or.inr ⟨by omega, h.2⟩
+
+/-- the body of `try`: after each output a `forktryend` fork is pushed (it re-wraps an error of the
+    continuation so that this `try` does not catch it); when the body is exhausted the machine
+    fails into the `forktrybegin` fork carrying the body's own error, and `tail` says what happens
+    then (nothing, or the handler) -/
+theorem try_body_aux {code Ob P o fr G pe S c outs eb}
+    (y : Yields code Ob P o fr G pe S c outs eb) :
+    ∀ {O K : Nat → Prop} {F : List Fork} {p : Nat} {v : V} {L pend : Nat} {out2 : List V} {e : Option Err} {Rref : Regs},
+    G = ⟨p, .v v :: S, fr, o⟩ :: F →
+    code[p]? = some (.forktrybegin L) → code[pe]? = some .forktryend → code[pe+1]? = some (.jump pend) →
+    (∀ a, Ob a → O a) → (∀ a, K a → O a ∨ P a) → (∀ a, K a → ¬ Wr Ob o a) →
+    EqOn K Rref c.regs →
+    (∀ R', EqOn K Rref R' →
+      Yields code O P o fr F pend S (.fail (⟨p, .v v :: S, fr, o⟩ :: F) (eb.map .plain) R') out2 e) →
+    Yields code O P o fr F pend S c (outs ++ out2) e := by
+  induction y with
+  | @done c e' R' hs hf =>
+    intro O K F p v L pend out2 e Rref hG _ _ _ hO _ hd hK tail
+    subst hG
+    have hW : ∀ a, Wr Ob o a → Wr O o a := fun a h => h.elim (fun h => Or.inl (hO a h)) Or.inr
+    exact (tail R' (hK.trans (hf.toOn hd))).steps_left hs (hf.mono hW)
+  | @out c w ws e' F'' R1 oo cp hF'' hs ho1 hf hn _ ih =>
+    intro O K F p v L pend out2 e Rref hG hbeg hend hjmp hO hk hd hK tail
+    subst hG
+    have hW : ∀ a, Wr Ob o a → Wr O o a := fun a h => h.elim (fun h => Or.inl (hO a h)) Or.inr
+    have hforks : (⟨pe, .v w :: S, fr, oo⟩ : Fork) :: (F'' ++ ⟨p, .v v :: S, fr, o⟩ :: F) =
+        ((⟨pe, .v w :: S, fr, oo⟩ : Fork) :: (F'' ++ [⟨p, .v v :: S, fr, o⟩])) ++ F := by simp
+    have hok : ForksOK code ((⟨pe, .v w :: S, fr, oo⟩ : Fork) :: (F'' ++ [⟨p, .v v :: S, fr, o⟩])) :=
+      ForksOK.tri (fe := ⟨pe, .v w :: S, fr, oo⟩) (fb := ⟨p, .v v :: S, fr, o⟩) hend hF'' hbeg .nil
+    have hs' : Steps code c (.run pend (.v w :: S)
+        (((⟨pe, .v w :: S, fr, oo⟩ : Fork) :: (F'' ++ [⟨p, .v v :: S, fr, o⟩])) ++ F) false none R1 fr oo cp) := by
+      rw [← hforks]
+      refine hs.trans (.head (c' := .run (pe+1) (.v w :: S)
+        ((⟨pe, .v w :: S, fr, oo⟩ : Fork) :: (F'' ++ ⟨p, .v v :: S, fr, o⟩ :: F)) false none R1 fr oo cp) ?_ ?_)
+      · simp [step, hend]
+      · exact Steps.one (by simp [step, hjmp])
+    refine .out hok hs' ho1 (hf.mono hW) (fun h => by simp at h) ?_
+    intro R2 h2
+    have hKeep : ∀ a, KeepP Ob P o oo a → KeepP O P o oo a := by
+      intro a h; rcases h with (h | h) | h
+      · exact Or.inl (Or.inl (hO a h))
+      · exact Or.inl (Or.inr h)
+      · exact Or.inr h
+    have hKK : ∀ a, K a → KeepP O P o oo a := fun a h => Or.inl (hk a h)
+    have hK2 : EqOn K Rref R2 := (hK.trans (hf.toOn hd)).trans (h2.mono hKK)
+    have := ih R2 (h2.mono hKeep) rfl hbeg hend hjmp hO hk hd (by simpa using hK2) tail
+    have y' : Yields code O P o fr F pend S
+        (.fail ((⟨pe, .v w :: S, fr, oo⟩ : Fork) :: (F'' ++ ⟨p, .v v :: S, fr, o⟩ :: F)) none R2) (ws ++ out2) e := by
+      refine Yields.steps_left (c' := .fail (F'' ++ ⟨p, .v v :: S, fr, o⟩ :: F) none R2) ?_ EqOff.refl this
+      refine .head (c' := .run pe (.v w :: S) (F'' ++ ⟨p, .v v :: S, fr, o⟩ :: F) true none R2 fr oo 0) (by simp [step]) ?_
+      exact Steps.one (by simp [step, hend])
+    rw [hforks] at y'
+    exact y'
 
 /-! ## lexical lookup -/
 
